@@ -120,8 +120,12 @@ func init() {
 // ---------------------------------------------------------------- request wrappers
 
 func (m *Model) track(c *RawClient, tid [12]byte, method uint16) {
-	m.reqs[tid] = &reqInfo{c: c, method: method}
+	m.reqs[tid] = append(m.reqs[tid], &reqInfo{c: c, method: method})
 }
+
+// Track registers a request sent outside the model's wrappers so that its response is accepted
+// by the response monitor.
+func (m *Model) Track(c *RawClient, tid [12]byte, method uint16) { m.track(c, tid, method) }
 
 // Do performs an authenticated request through the model's response monitor.
 func (m *Model) do(c *RawClient, method uint16, build func(b *wire.Builder)) (*wire.Msg, [12]byte) {
@@ -183,6 +187,24 @@ func codeOf(m *wire.Msg) int {
 func (m *Model) Allocate(c *RawClient, o AllocOpts) *wire.Msg {
 	a, st := m.Alloc(c)
 	resp, tid := m.do(c, wire.MethodAllocate, func(b *wire.Builder) { o.apply(b) })
+
+	return m.allocPost(c, o, a, st, resp, tid)
+}
+
+// AllocateRaw sends a pre-built Allocate request (the caller keeps the bytes for retransmission).
+func (m *Model) AllocateRaw(c *RawClient, o AllocOpts, raw []byte, tid [12]byte) *wire.Msg {
+	a, st := m.Alloc(c)
+	m.track(c, tid, wire.MethodAllocate)
+	resp := c.Exchange(raw, tid)
+	if c.IsTCP && resp != nil {
+		m.checkResponse(resp, c, c.Addr.String())
+	}
+	m.Audit(nil)
+
+	return m.allocPost(c, o, a, st, resp, tid)
+}
+
+func (m *Model) allocPost(c *RawClient, o AllocOpts, a *MAlloc, st Tri, resp *wire.Msg, tid [12]byte) *wire.Msg {
 	code := codeOf(resp)
 	m.Rec.Tracef("%s Allocate(tr=%d life=%v fam=%d) alloc=%s -> %d", c.Name, o.Transport, derefU32(o.Lifetime), o.Family, st, code)
 	m.Rec.Ev("req/allocate")
@@ -804,7 +826,7 @@ func (m *Model) Audit(exp []*Expect) {
 		in := decodeInbound(d.Data, d.Src.String())
 		var dstClient *RawClient
 		for _, c := range w.Clients {
-			if !c.IsTCP && c.UDP != nil && c.Server.String() == d.Src.String() && c.Addr.String() == d.Dst.String() {
+			if !c.IsTCP && c.UDP != nil && c.Listener < len(w.ServerUDP) && w.ServerUDP[c.Listener] == d.Sock && c.Addr.String() == d.Dst.String() {
 				dstClient = c
 			}
 		}
@@ -852,7 +874,16 @@ func (m *Model) Audit(exp []*Expect) {
 }
 
 func (m *Model) checkResponse(msg *wire.Msg, dst *RawClient, dstAddr string) {
-	ri := m.reqs[msg.TID]
+	var ri *reqInfo
+	cands := m.reqs[msg.TID]
+	for _, r := range cands {
+		if r.c == dst && r.method == msg.Method {
+			ri = r
+		}
+	}
+	if ri == nil && len(cands) > 0 {
+		ri = cands[0]
+	}
 	m.Rec.Ev("emit/response")
 	switch {
 	case ri == nil:
@@ -863,7 +894,7 @@ func (m *Model) checkResponse(msg *wire.Msg, dst *RawClient, dstAddr string) {
 		m.Rec.Violate("resp-uncorrelated", "method", "response method %x answers request method %x", msg.Method, ri.method)
 	default:
 		ri.responses++
-		if ri.responses > 1 {
+		if ri.responses > 1+ri.retransmits {
 			m.Rec.Violate("resp-duplicate", "dup", "request of %s (method %x) answered %d times", ri.c.Name, ri.method, ri.responses)
 		}
 	}
@@ -1062,4 +1093,13 @@ func (w *World) TakeConnAttempts() []ConnAttempt {
 	w.connAttempts = nil
 
 	return out
+}
+
+// Retransmitted tells the response monitor that the request with tid was sent again by c.
+func (m *Model) Retransmitted(c *RawClient, tid [12]byte) {
+	for _, r := range m.reqs[tid] {
+		if r.c == c {
+			r.retransmits++
+		}
+	}
 }
